@@ -156,13 +156,14 @@ theorem walk_spec (cpb amt thr : Int) (addr : Bytes) (cs : List Utxo) (total ret
     split
     · split
       · rename_i hc
+        simp only [Bool.and_eq_true] at hc
         obtain ⟨ys, h1, h2, h3, h4⟩ := ih (Value.add total c.out.amount) (subInt (Value.add total c.out.amount) amt)
           (chosen ++ [c])
         refine ⟨c :: ys, ?_, h2.cons_cons c, ?_, ?_⟩
         · rw [h1]; simp
         · intro u hu
           rcases List.mem_cons.1 hu with rfl | hu
-          · exact hc
+          · exact hc.1
           · exact h3 u hu
         · rw [h4]; rfl
       · obtain ⟨ys, h1, h2, h3, h4⟩ := ih total ret chosen
@@ -214,6 +215,87 @@ theorem selectAuto_eligible (cpb amt thr : Int) (addr : Bytes) (st : State) :
     ∀ u ∈ selectAuto cpb amt thr addr st, eligible u = true := by
   obtain ⟨y1, y2, y3, h, _, _, _, e⟩ := selectAuto_spec cpb amt thr addr st
   rw [h]; exact e
+
+/-! ### a UTxO is not taken twice -/
+
+/-- the candidate lists are views of one ledger state: a reference identifies one UTxO — two entries with the same
+`TransactionInput` are equal for `UTxO.__eq__` (in particular when they are the same object) -/
+def RefConsistent (all : List Utxo) : Prop := ∀ u ∈ all, ∀ v ∈ all, u.ref = v.ref → Utxo.same u v = true
+
+theorem isIn_false (c : Utxo) (l : List Utxo) (h : isIn c l = false) : ∀ x ∈ l, Utxo.same x c = false := by
+  intro x hx
+  simp only [isIn, List.any_eq_false] at h
+  simpa using h x hx
+
+/-- the loop keeps the chosen references pairwise distinct -/
+theorem walk_nodup (all : List Utxo) (hcons : RefConsistent all) (cpb amt thr : Int) (addr : Bytes) (cs : List Utxo)
+    (total ret : Value) (chosen : List Utxo) (hcs : ∀ u ∈ cs, u ∈ all) (hch : ∀ u ∈ chosen, u ∈ all)
+    (hnd : (chosen.map Utxo.ref).Nodup) :
+    ((walk cpb amt thr addr cs total ret chosen).2.map Utxo.ref).Nodup := by
+  induction cs generalizing total ret chosen with
+  | nil => simpa [walk] using hnd
+  | cons c rest ih =>
+    simp only [walk]
+    have hrest : ∀ u ∈ rest, u ∈ all := fun u hu => hcs u (by simp [hu])
+    split
+    · split
+      · rename_i hc
+        simp only [Bool.and_eq_true, Bool.not_eq_true'] at hc
+        apply ih _ _ _ hrest
+        · intro u hu
+          rcases List.mem_append.1 hu with hu | hu
+          · exact hch u hu
+          · simp only [List.mem_singleton] at hu; subst hu; exact hcs u (by simp)
+        · rw [List.map_append, List.nodup_append]
+          refine ⟨hnd, by simp, ?_⟩
+          intro a ha b hb
+          simp only [List.map_cons, List.map_nil, List.mem_singleton] at hb
+          subst hb
+          obtain ⟨x, hx, rfl⟩ := List.mem_map.1 ha
+          intro he
+          have h1 := hcons x (hch x hx) c (hcs c (by simp)) he
+          have h2 := isIn_false c chosen hc.2 x hx
+          rw [h1] at h2; cases h2
+      · exact ih _ _ _ hrest hch hnd
+    · exact hnd
+
+theorem walk_subset (all : List Utxo) (cpb amt thr : Int) (addr : Bytes) (cs : List Utxo) (total ret : Value)
+    (chosen : List Utxo) (hcs : ∀ u ∈ cs, u ∈ all) (hch : ∀ u ∈ chosen, u ∈ all) :
+    ∀ u ∈ (walk cpb amt thr addr cs total ret chosen).2, u ∈ all := by
+  obtain ⟨ys, h1, h2, _, _⟩ := walk_spec cpb amt thr addr cs total ret chosen
+  intro u hu
+  rw [h1] at hu
+  rcases List.mem_append.1 hu with hu | hu
+  · exact hch u hu
+  · exact hcs u (h2.subset hu)
+
+/-- the automatic selection never names a reference twice, when the three lists are views of one ledger state -/
+theorem selectAuto_nodup (cpb amt thr : Int) (addr : Bytes) (st : State)
+    (hcons : RefConsistent (st.inputs ++ st.potential ++ st.addrUtxos)) :
+    ((selectAuto cpb amt thr addr st).map Utxo.ref).Nodup := by
+  simp only [selectAuto]
+  have hi : ∀ u ∈ popOrder st.inputs, u ∈ st.inputs ++ st.potential ++ st.addrUtxos := by
+    intro u hu; simp [(mem_popOrder _ u).1 hu]
+  have hp : ∀ u ∈ popOrder st.potential, u ∈ st.inputs ++ st.potential ++ st.addrUtxos := by
+    intro u hu; simp [(mem_popOrder _ u).1 hu]
+  have ha : ∀ u ∈ popOrder st.addrUtxos, u ∈ st.inputs ++ st.potential ++ st.addrUtxos := by
+    intro u hu; simp [(mem_popOrder _ u).1 hu]
+  have n1 := walk_nodup _ hcons cpb amt thr addr (popOrder st.inputs) ⟨0, []⟩ (subInt ⟨0, []⟩ amt) [] hi (by simp) (by simp)
+  have m1 := walk_subset _ cpb amt thr addr (popOrder st.inputs) ⟨0, []⟩ (subInt ⟨0, []⟩ amt) [] hi (by simp)
+  generalize walk cpb amt thr addr (popOrder st.inputs) ⟨0, []⟩ (subInt ⟨0, []⟩ amt) [] = s1 at n1 m1 ⊢
+  have h2 : ((if s1.1.coin < amt then walk cpb amt thr addr (popOrder st.potential) s1.1 (subInt s1.1 amt) s1.2
+      else s1).2.map Utxo.ref).Nodup ∧
+      ∀ u ∈ (if s1.1.coin < amt then walk cpb amt thr addr (popOrder st.potential) s1.1 (subInt s1.1 amt) s1.2
+      else s1).2, u ∈ st.inputs ++ st.potential ++ st.addrUtxos := by
+    split
+    · exact ⟨walk_nodup _ hcons _ _ _ _ _ _ _ _ hp m1 n1, walk_subset _ _ _ _ _ _ _ _ _ hp m1⟩
+    · exact ⟨n1, m1⟩
+  obtain ⟨n2, m2⟩ := h2
+  generalize (if s1.1.coin < amt then walk cpb amt thr addr (popOrder st.potential) s1.1 (subInt s1.1 amt) s1.2
+      else s1) = s2 at n2 m2 ⊢
+  split
+  · exact walk_nodup _ hcons _ _ _ _ _ _ _ _ ha m2 n2
+  · exact n2
 
 /-! ### no input is taken once the running total is adequate -/
 
@@ -292,9 +374,9 @@ theorem popOrders_perm (st : State) :
 
 /-! ## `finish` and `run` by cases -/
 
-theorem finish_ok (cpb amt thr : Int) (addr : Bytes) (cols : List Utxo) (r : Result)
-    (h : finish cpb amt thr addr cols = .ok r) :
-    r.collaterals = cols ∧ amt ≤ coinSum cols ∧
+theorem finish_ok (cpb amt thr : Int) (mx : Nat) (addr : Bytes) (cols : List Utxo) (r : Result)
+    (h : finish cpb amt thr mx addr cols = .ok r) :
+    r.collaterals = cols ∧ cols.length ≤ mx ∧ amt ≤ coinSum cols ∧
     ((r.ret = none ∧ r.total = none ∧ shouldAdd thr (subInt (sumAmounts cols) amt) = false) ∨
      (r.ret = some (retOutput addr (subInt (sumAmounts cols) amt)) ∧ r.total = some amt ∧
       shouldAdd thr (subInt (sumAmounts cols) amt) = true ∧
@@ -303,20 +385,23 @@ theorem finish_ok (cpb amt thr : Int) (addr : Bytes) (cols : List Utxo) (r : Res
   simp only [] at h
   split at h
   · cases h
-  · rename_i hamt
-    rw [sumAmounts_coin] at hamt
+  · rename_i hlen
     split at h
-    · rename_i hs
-      cases h
-      refine ⟨rfl, by omega, Or.inl ⟨rfl, rfl, ?_⟩⟩
-      simpa using hs
-    · rename_i hs
+    · cases h
+    · rename_i hamt
+      rw [sumAmounts_coin] at hamt
       split at h
-      · cases h
-      · rename_i hm
+      · rename_i hs
         cases h
-        refine ⟨rfl, by omega, Or.inr ⟨rfl, rfl, ?_, by omega⟩⟩
+        refine ⟨rfl, by omega, by omega, Or.inl ⟨rfl, rfl, ?_⟩⟩
         simpa using hs
+      · rename_i hs
+        split at h
+        · cases h
+        · rename_i hm
+          cases h
+          refine ⟨rfl, by omega, by omega, Or.inr ⟨rfl, rfl, ?_, by omega⟩⟩
+          simpa using hs
 
 /-- `self.collaterals` when the tail of `_set_collateral_return` starts -/
 def colsOf (p : Params) (st : State) (addr : Bytes) (amt : Int) : List Utxo :=
@@ -331,7 +416,7 @@ as it was, or it computed the collateral amount, fixed the collateral inputs and
 theorem run_ok (p : Params) (st : State) (r : Result) (h : run p st = .ok r) :
     ((st.hasScripts = false ∨ st.retAddr = none) ∧ r = ⟨st.explicit, none, none⟩) ∨
     (∃ addr amt, st.hasScripts = true ∧ st.retAddr = some addr ∧ collateralAmount p st.refScriptSize = some amt ∧
-      finish p.cpb amt st.threshold addr (colsOf p st addr amt) = .ok r) := by
+      finish p.cpb amt st.threshold p.maxCollateralInputs addr (colsOf p st addr amt) = .ok r) := by
   unfold run at h
   split at h
   · rename_i hs
@@ -367,7 +452,7 @@ deriving instance DecidableEq for Utxo
 deriving instance DecidableEq for Result
 
 theorem collateralAmount_eq (p : Params) (ref amt : Int) (h : collateralAmount p ref = some amt) :
-    ∃ mf, maxTxFee p.fee ref = some mf ∧ amt = mf * p.percent / 100 := by
+    ∃ mf, maxTxFee p.fee ref = some mf ∧ amt = (mf * p.percent + 99) / 100 := by
   unfold collateralAmount at h
   split at h
   · cases h
